@@ -263,6 +263,32 @@ func legC14Interleave(c *Ctx) {
 		}
 		c.Add(cs)
 	}
+	// the clock period is re-read on every tick: a goroutine started under a long period follows a later
+	// SetTimeoutCheckPeriod, so that "no later than the timeout plus a few clock periods" refers to the period in force
+	{
+		c14StopWithin(3 * time.Second)
+		regexp2.SetTimeoutCheckPeriod(100 * time.Millisecond)
+		regexp2.VerifClockMakeDeadline(2 * time.Second) // starts the clock goroutine under the 100 ms period
+		time.Sleep(5 * time.Millisecond)
+		regexp2.SetTimeoutCheckPeriod(time.Millisecond)
+		time.Sleep(120 * time.Millisecond) // the tick that was already sleeping under the old period is over
+		d := 20 * time.Millisecond
+		re := regexp2.MustCompile(`(a+)+$`)
+		re.MatchTimeout = d
+		c14TakeStall()
+		t0 := time.Now()
+		_, err := re.MatchString(strings.Repeat("a", 40) + "b")
+		el := time.Since(t0)
+		cs := &Case{Desc: fmt.Sprintf("clock goroutine started under a 100 ms period, period lowered to 1 ms, then a catastrophic match with MatchTimeout=%v", d), Nontrivial: true, Key: "period-change", Class: "period-change"}
+		allow := d + 30*time.Millisecond + time.Duration(c14TakeStall())
+		if err == nil {
+			cs.Direct = "the catastrophic match returned without a timeout error"
+		} else if el > allow {
+			cs.Direct = fmt.Sprintf("the match timed out after %v (timeout %v, clock period 1 ms, allowance %v): the clock still ticks at the period it was started with", el.Round(time.Millisecond), d, allow)
+		}
+		c.Add(cs)
+		c14StopWithin(3 * time.Second)
+	}
 	c.Gate("continuation scans ran", conts >= 10)
 	c.Gate("interleaving scenarios ran", ran >= 16)
 }
